@@ -341,14 +341,45 @@ pub fn families() -> Vec<Box<dyn Family>> {
             |idx, cfg, out| {
                 let mut rng = Rng::for_case(cfg.seed, "c14.distinct_boundary", idx);
                 let bound = if cfg.tiny { 8 } else { text_gen::BOUNDARIES[(idx % 8) as usize] };
+                // both sides have n < bound lines; together they have n + fresh > bound distinct lines
                 let n = bound - 1 - rng.below(bound.min(400) / 4 + 1);
-                let fresh = rng.range(bound - n + 1, (bound - n + 1) + bound.min(900));
-                let drop = rng.below(200.min(n));
-                let (a, b) = text_gen::distinct_lines_pair(&mut rng, n, drop, fresh);
+                let fresh = (rng.range(bound - n + 1, (bound - n + 1) + bound.min(900))).min(n);
+                let (a, b) = text_gen::distinct_lines_pair(&mut rng, n, fresh, fresh);
                 out.sample(|| format!("{} distinct old lines, {} fresh new lines (boundary {})", n, fresh, bound));
                 out.nontrivial(&(&a, &b));
                 out.count("distinct_token_boundary_cases");
                 text_case(&a, &b, &[0, 5], &[Algorithm::Myers, Algorithm::Patience], out);
+            },
+        ),
+        family(
+            "windowed_large",
+            "texts of 4200 / 5000 / 9000 DISTINCT lines whose edits are confined to a window of a few lines (incl. two adjacent lines swapped): cheap for ALL THREE algorithms, so Lcs text diffs far above 4096 x 4096 tokens are compared with the direct Lcs sequence diff",
+            false,
+            1,
+            |cfg| if cfg.tiny { 1 } else { cfg.tier.pick(9, 45) },
+            |idx, cfg, out| {
+                let mut rng = Rng::for_case(cfg.seed, "c14.windowed_large", idx);
+                let n = if cfg.tiny { 6 } else { [4200usize, 5000, 9000][(idx % 3) as usize] };
+                let la: Vec<String> = (0..n).map(|i| format!("line {}\n", i)).collect();
+                let mut lb = la.clone();
+                let at = rng.below(n - 4);
+                match rng.below(3) {
+                    0 => lb.swap(at, at + 1),
+                    1 => {
+                        lb.swap(at, at + 1);
+                        lb[at + 3] = "changed\n".into();
+                    }
+                    _ => {
+                        lb.remove(at);
+                        lb.insert(at + 2, "fresh\n".into());
+                    }
+                }
+                let a = la.concat().into_bytes();
+                let b = lb.concat().into_bytes();
+                out.sample(|| format!("{} distinct lines, edits near line {}", n, at));
+                out.nontrivial(&(n, at, idx));
+                out.count("windowed_large_cases");
+                text_case(&a, &b, &[0, 5], &ALGS, out);
             },
         ),
         family(
